@@ -69,8 +69,8 @@ def hgVerdict (filters : List Re) (path : Str) : Bool := filters.any fun r => r.
 def dockerPatternText (root : Str) (line : Str) : Str × Bool :=
   let neg := startsWith line ['!']
   let p0 := if neg then line.filter (· != '!') else line
-  let conv := globConv (ofS "[^/]") p0
-  let p1 := conv.dropWhile (fun c => c == '/' || c == '\\')
+  -- leading separators are dropped from the glob before it is converted (D72 fix)
+  let p1 := globConv (ofS "[^/]") (p0.dropWhile (fun c => c == '/' || c == '\\'))
   let p2 := (p1.reverse.dropWhile (· == '/')).reverse
   (['^'] ++ escapePath root ++ ['/'] ++ p2 ++ ofS "(/|$)", neg)
 
